@@ -45,6 +45,27 @@ clang's typed AST (`clang-14 -Xclang -ast-dump=json`).  The result is a SHALLOW 
     translated - reaching such a group is recorded in `ub` (stated in the generated doc comment);
   * a scalar assignment on the right of `&&` (`a && (x = e) >= 0`) becomes a conditional store (`x := if a then e else x`);
   * opts['c_names'] (Lean/source name -> symbol after preprocessing) for functions renamed by a macro (`#define NC_var_shape H4_NC_var_shape`).
+Extensions used by unit Hfiledd (each one only takes effect when its option is given, so the text of the other units is unchanged):
+  * opts['object_calls'] = [names]: a struct-pointer local whose single binding is the result of these calls (`p = f(x)`, also through
+    `c ? (T *)f(x) : NULL` whose condition consults only such calls, and `(pp = f(x)) == NULL` for a pointer to pointer, `q = *pp`) IS an object
+    outside the function, like a struct parameter: its integer members are entry fields `p_<member>`, `p_null : Bool` answers the NULL test.
+    The calls are assumed to leave the modelled state unchanged.  A struct-pointer local that is only ever NULL (`dd_t *d = NULL`, its address
+    handed to an assumed call) is accepted; any dereference of it still fails.
+  * opts['assume_calls'][f] = 'table:k': the call of `f` (ONE call site) leaves the modelled state unchanged and returns `f_ret[a]`, a cell of the
+    entry region `f_ret : List Int` selected by the value of argument number k (an integer, or a cursor: its index); 0 outside the table.
+  * opts['use_units'] = {unit: [c file, [functions], opts]}: functions of a unit translated elsewhere may be called; the call names the
+    definitions of that unit (`H4.Gen.Fn.<unit>.<f>`, imported), so its theorems apply to the callee.
+  * opts['fragments'][name] = {'of': function, 'from': text, 'to': text | 'count': n}: `name` (listed among the unit's functions) is the run of
+    consecutive statements of ONE block of `function` from the statement whose source text starts with `from` to the first following sibling
+    that starts with `to`.  Variables of the enclosing function used by the fragment become parameters (integers whose incoming value may be
+    read, arrays, pointers it does not assign) or locals (first use is a plain top-level assignment); see `fragment_ast`.  A `goto` to a label
+    outside leaves `gto = true` in the final state; `break` / `continue` that would leave the fragment are rejected.
+  * cursors: a struct-pointer local bound by `q = &p->arr[e]` or (when it is moved with ++ -- += -=) by `q = p->arr` moves over the array of
+    structs `p->arr`: an `Int` index field `q`; `q->m` is cell `q` of the region `p_arr_m` (the convention of `p->arr[i].m`), `q++` moves it.
+  * opts['io_args'][f] = [position of the byte count, position of the pointer] for the stream functions of opts['io'] (HP_read / HP_write have
+    the buffer before the count); opts['ignore_members'] = [m]: a store into the POINTER member `m` (a back pointer) is not translated;
+    opts['wrap_int_conv']: a conversion to int32 / int64 from an integer type that does not fit (uint32 -> int32, 64 -> 32 bits) wraps
+    (implementation-defined in C, two's complement on every supported target) instead of being assumed representable.
 
 Everything outside the supported subset makes the translator FAIL loudly (it never guesses): goto, switch, calls other
 than memcpy and the names in opts['ignore_calls'] (error reporting that does not touch the modelled state),
@@ -163,7 +184,6 @@ class Fn:
         self.ret_region = None
         self.ignore = set(opts.get("ignore_calls", []))
         self.globals = opts.get("globals", {})
-        self.notes = []
         self.statics = []
         self.pidx = {}
         self.esz = {}            # region -> size in bytes of one cell (for realloc / malloc byte counts)
@@ -182,6 +202,10 @@ class Fn:
         self.seats = {}          # pointer members re-seated to a block the function allocated: member region name -> block region
         self.used_names = set()
         self.plist = []
+        self.cursors = {}        # struct-pointer locals that move over an array of structs: name -> (struct parameter, member path); index in field `name`
+        self.notes = list(opts.get("_frag_notes", []))
+        self.objects = {}        # struct-pointer locals bound to the result of opts['object_calls'] functions: an object outside the function
+        self.oracle_sites = {}   # assumed call answered from a table: function -> id of its (single) call site
 
     # ---------------------------------------------------------------- fields
     def add_entry(self, n, ty):
@@ -234,7 +258,9 @@ class Fn:
             return term
         if (not fs) and fb < tb:
             return term
-        if tb < 32:
+        if tb < 32 or (self.opts.get("wrap_int_conv") and ((not fs and fb >= tb) or (fs and fb > tb))):
+            # (with opts['wrap_int_conv'] also to int32 / int64 from a type that does not fit: implementation-defined in C, two's complement
+            # wrap-around on every supported target)
             m = 2 ** tb
             return "(((%s) + %d) %% %d - %d)" % (term, m // 2, m, m // 2)
         return term      # assumption: value representable (no signed overflow)
@@ -417,6 +443,15 @@ class Fn:
         if k == "MemberExpr":
             b = self.skip(n["inner"][0])
             fld = n["name"]
+            if b.get("kind") == "DeclRefExpr" and b["referencedDecl"]["name"] in self.cursors:
+                # q->fld where q moves over the array of structs p->arr: the region p_arr_fld at index q
+                qn = b["referencedDecl"]["name"]
+                p_, path_ = self.cursors[qn]
+                if ty is None:
+                    fail("%s: member %s->%s is not an integer" % (self.name, qn, fld))
+                reg = self.owned(p_, self.region, "%s_%s_%s" % (p_, "_".join(path_), fld))
+                idx = "s.%s" % lname(qn)
+                return ("elem", reg, idx, [self.inb(reg, idx)], [], ty)
             if b.get("kind") == "ArraySubscriptExpr":
                 bb = self.skip(b["inner"][0])
                 if bb.get("kind") == "DeclRefExpr" and bb["referencedDecl"]["name"] in self.structs:
@@ -619,6 +654,30 @@ class Fn:
             if nm in self.opts.get("assume_calls", {}):
                 # a call whose effect is outside the modelled state and which is ASSUMED to return this value (trusted base)
                 val = str(self.opts["assume_calls"][nm])
+                if val.startswith("table:"):
+                    # the answer is read from a table given at entry, indexed by the value of argument number k (1-based); one call site only
+                    # (its other arguments are the same expressions at every execution); the modelled state is left unchanged
+                    karg = int(val[6:])
+                    site = n.get("id")
+                    if self.oracle_sites.setdefault(nm, site) != site:
+                        fail("%s: more than one call site of %s, which is answered from a table" % (self.name, nm))
+                    a_ = n["inner"][karg]
+                    if ptr_elem(qt(a_)) is not None:
+                        sa = self.skip(a_)
+                        if sa.get("kind") == "DeclRefExpr" and sa["referencedDecl"]["name"] in getattr(self, "cursors", {}):
+                            ta, ca, ea = "s.%s" % lname(sa["referencedDecl"]["name"]), [], []
+                        else:
+                            fail("%s: table argument of %s is a pointer that is not a cursor" % (self.name, nm))
+                    else:
+                        ta, ca, ea = self.rvalue(a_)
+                    if ea:
+                        fail("%s: side effect in the table argument of %s" % (self.name, nm))
+                    self.owner = None
+                    tab = self.region("%s_ret" % nm)
+                    note = "call of `%s` is assumed to leave the modelled state unchanged and to return `%s[a]`, where `a` is the value of its argument number %d (0 outside the table)" % (nm, tab, karg)
+                    if note not in self.notes:
+                        self.notes.append(note)
+                    return "(s.%s.getD (Int.toNat (%s)) 0)" % (tab, ta), ca, []
                 if val.startswith("param:"):
                     # the result is an entry parameter (the same value at every call site: the calls must have equal arguments)
                     f_ = self.scalar(val[6:], entry=True) if lname(val[6:]) not in self.scalars else lname(val[6:])
@@ -669,8 +728,9 @@ class Fn:
             if io == "write":
                 # Hwrite(aid, n, ptr): appends n bytes to the output stream, returns n
                 self.use_io("out")
-                nt, nc, ne = self.rvalue(n["inner"][2])
-                rr, ri, rc, re_ = self.pexpr(n["inner"][3])
+                an_, ap_ = self.opts.get("io_args", {}).get(nm, [2, 3])      # positions of the byte count and of the pointer (Hwrite: 2, 3)
+                nt, nc, ne = self.rvalue(n["inner"][an_])
+                rr, ri, rc, re_ = self.pexpr(n["inner"][ap_])
                 if ne or re_:
                     fail("%s: side effect in %s arguments" % (self.name, nm))
                 chk = ["(0 : Int) ≤ %s" % nt, "0 ≤ %s ∧ %s + %s ≤ %s.length" % (ri, ri, nt, self.rt(rr))]
@@ -678,8 +738,9 @@ class Fn:
             if io == "read":
                 # Hread(aid, n, ptr): delivers n bytes of the input stream, or FAIL (-1, nothing changes) when fewer are left
                 self.use_io("in")
-                nt, nc, ne = self.rvalue(n["inner"][2])
-                rr, ri, rc, re_ = self.pexpr(n["inner"][3])
+                an_, ap_ = self.opts.get("io_args", {}).get(nm, [2, 3])      # positions of the byte count and of the pointer (Hread: 2, 3)
+                nt, nc, ne = self.rvalue(n["inner"][an_])
+                rr, ri, rc, re_ = self.pexpr(n["inner"][ap_])
                 if ne or re_:
                     fail("%s: side effect in %s arguments" % (self.name, nm))
                 if rr.startswith("#") or rr.startswith("@"):
@@ -809,6 +870,12 @@ class Fn:
             if p is not None:
                 f = self.owned(p, self.boolf, "%s_%s_null" % (p, "_".join(path)))
         if f is None and k == "BinaryOperator" and n.get("opcode") == "=":
+            l_ = self.skip(n["inner"][0])
+            if l_.get("kind") == "DeclRefExpr" and l_["referencedDecl"]["name"] in self.objects:
+                # `(q = call(…)) == NULL`: q is the object the call returns (bound statically), the test reads `q_null`
+                nm = l_["referencedDecl"]["name"]
+                f = self.owned(nm, self.boolf, "%s_null" % nm)
+                return ("(s.%s = true)" if want_null else "(s.%s = false)") % f, [], []
             r, i, c, e = self.pexpr(n)      # performs the assignment (pre-lines / effects)
             return ("False" if want_null else "True"), c, e
         if f is None and k == "DeclRefExpr" and n["referencedDecl"]["name"] in self.nullable:
@@ -950,6 +1017,10 @@ class Fn:
                     if init:
                         fail("%s: initialised local array %s" % (self.name, nm))
                     continue
+                if nm in self.cursors:
+                    if init and not self.is_null(init[0]):
+                        out += self.cursor_assign(nm, init[0], ind)
+                    continue
                 if nm in self.alias_locals:
                     continue     # an alias of a struct parameter's member: bound statically
                 if d.get("storageClass") == "static":
@@ -1002,6 +1073,10 @@ class Fn:
             return self.with_effects(c + c2 + (lv[3] if lv[0] == "elem" else []), [(lv, v)], e + le, ind)
         if k == "UnaryOperator" and n.get("opcode") in ("++", "--"):
             sub = n["inner"][0]
+            ssub = self.skip(sub)
+            if ssub.get("kind") == "DeclRefExpr" and ssub["referencedDecl"]["name"] in self.cursors:
+                qn = lname(ssub["referencedDecl"]["name"])
+                return self.with_effects([], [(("scalar", qn), "(s.%s %s 1)" % (qn, "+" if n["opcode"] == "++" else "-"))], [], ind)
             if ptr_elem(qt(sub)) is not None:
                 r, i, c, e = self.pexpr(n)
                 return self.with_effects(c, [], e, ind)
@@ -1162,6 +1237,14 @@ class Fn:
         chained = srhs.get("kind") == "BinaryOperator" and srhs.get("opcode") == "="
         if ptr_elem(qt(lhs)) is not None:
             sl = self.skip(lhs)
+            if sl.get("kind") == "MemberExpr" and sl.get("name") in self.opts.get("ignore_members", []):
+                # a pointer member that is outside the modelled state (a back pointer): the store is not translated
+                note = "stores into the pointer member `%s` are outside the modelled state" % sl.get("name")
+                if note not in self.notes:
+                    self.notes.append(note)
+                return []
+            if sl.get("kind") == "DeclRefExpr" and sl["referencedDecl"]["name"] in self.cursors:
+                return self.cursor_assign(sl["referencedDecl"]["name"], rhs, ind)
             if sl.get("kind") == "DeclRefExpr" and sl["referencedDecl"]["name"] in self.alias_locals:
                 return []
             if sl.get("kind") == "ArraySubscriptExpr":
@@ -1414,7 +1497,8 @@ class Fn:
         self.uses_join = True
         for c in checks:
             self.pre_lines.append("have s : %s.St := %s.chk s (%s)" % (self.name, self.name, c))
-        self.pre_lines.append("let r%d : %s.St := %s fuel %s" % (k, nm, nm, " ".join("(%s)" % amap[f] for f in order)))
+        q_ = getattr(callee, "qual", "")      # a function of another unit (opts['use_units']) is named with its namespace
+        self.pre_lines.append("let r%d : %s%s.St := %s%s fuel %s" % (k, q_, nm, q_, nm, " ".join("(%s)" % amap[f] for f in order)))
         for f, how in back:
             if f not in callee.setters and not (f in ("io_in", "io_out", "io_pos")):
                 continue      # the callee never stores into it
@@ -1523,6 +1607,78 @@ class Fn:
             out.append(self.upd("brk", "false", ind))
         return out
 
+    # ---------------------------------------------------------------- cursors over arrays of structs
+    def cursor_base(self, r):
+        """`&p->arr[e]` -> (p, path, e);  `p->arr` (array of structs / pointer to the first struct) -> (p, path, None);  else None"""
+        r = self.skip(r)
+        if r.get("kind") == "UnaryOperator" and r.get("opcode") == "&":
+            a = self.skip(r["inner"][0])
+            if a.get("kind") == "ArraySubscriptExpr":
+                b = self.skip(a["inner"][0])
+                if b.get("kind") == "MemberExpr":
+                    p0, path0 = self.member_chain(b)
+                    if p0 is not None:
+                        return p0, path0, a["inner"][1]
+            return None
+        if r.get("kind") == "MemberExpr" and self.is_struct_ptr(qt(r)):
+            p0, path0 = self.member_chain(r)
+            if p0 is not None:
+                return p0, path0, None
+        return None
+
+    def cursor_assign(self, nm, rhs, ind):
+        cb = self.cursor_base(rhs)
+        if cb is None or (cb[0], cb[1]) != self.cursors[nm]:
+            fail("%s: cursor %s is assigned something that is not an element of its array" % (self.name, nm))
+        if cb[2] is None:
+            return self.assign(("scalar", lname(nm)), "0", ind)
+        t, c, e = self.rvalue(cb[2])
+        return self.with_effects(c, [(("scalar", lname(nm)), t)], e, ind)
+
+    # ---------------------------------------------------------------- objects returned by calls outside the modelled state
+    def is_struct_ptr(self, t):
+        el = ptr_elem(t)
+        return el is not None and int_width(el) is None and el != "void" and ptr_elem(el) is None
+
+    def object_expr(self, n):
+        """names of the opts['object_calls'] functions whose result the pointer expression `n` is: a call of one of them, or `c ? a : b`
+        whose branches are such expressions or NULL and whose condition only consults such calls, variables and literals; None otherwise"""
+        oc = set(self.opts.get("object_calls", []))
+        n = self.skip(n)
+        while n.get("kind") in ("CStyleCastExpr", "ImplicitCastExpr", "ParenExpr"):
+            n = self.skip(n["inner"][0])
+        k = n.get("kind")
+        if k == "CallExpr":
+            nm = self.skip(n["inner"][0]).get("referencedDecl", {}).get("name")
+            return [nm] if nm in oc else None
+        if k == "ConditionalOperator":
+            c, a, b = n["inner"]
+            names = []
+
+            def pure(m):
+                kk = m.get("kind")
+                if kk == "CallExpr":
+                    cn = self.skip(m["inner"][0]).get("referencedDecl", {}).get("name")
+                    if cn not in oc:
+                        return False
+                    if cn not in names:
+                        names.append(cn)
+                    return all(pure(x) for x in m["inner"][1:])
+                if kk in ("UnaryOperator", "CompoundAssignOperator") or (kk == "BinaryOperator" and m.get("opcode") in ("=", ",")):
+                    return False
+                return all(pure(x) for x in m.get("inner", []))
+            if not pure(c):
+                return None
+            for br in (a, b):
+                if self.is_null(br):
+                    continue
+                sub = self.object_expr(br)
+                if sub is None:
+                    return None
+                names += [x for x in sub if x not in names]
+            return names or None
+        return None
+
     # ---------------------------------------------------------------- pointer regions of locals (static resolution)
     def same_region(self, nm, r):
         if self.ptr.get(nm) != r:
@@ -1574,6 +1730,7 @@ class Fn:
     def resolve_ptr_locals(self, body):
         assigns = []    # (pointer local, rhs node)
         alias_assigns = []
+        null_only = set()
         null_inits = []   # pointer locals declared with `= NULL`
         seat_assigns = []  # (member lvalue, rhs): pointer members that are assigned a non-NULL pointer
 
@@ -1582,11 +1739,14 @@ class Fn:
             if k == "VarDecl" and ptr_elem(qt(n)) is not None and not re.search(r"\[\d+\]$", base_type(qt(n))):
                 init = [c for c in n.get("inner", []) if c.get("kind")]
                 el_ = ptr_elem(qt(n))
-                if int_width(el_) is None and el_ != "void" and ptr_elem(el_) is None:
+                if int_width(el_) is None and el_ != "void" and (ptr_elem(el_) is None or (self.opts.get("object_calls") and self.is_struct_ptr(el_))):
                     # pointer to a struct: an ALIAS of (a member of) a struct parameter, bound by its single assignment
+                    # (with opts['object_calls'] also a pointer to a pointer to a struct: it stands for the object `*p`)
                     self.alias_locals.add(n["name"])
+                    null_only.add(n["name"])
                     if init and not self.is_null(init[0]):
                         alias_assigns.append((n["name"], init[0]))
+                        null_only.discard(n["name"])
                     for c in n.get("inner", []):
                         walk(c)
                     return
@@ -1602,6 +1762,7 @@ class Fn:
                 if l.get("kind") == "DeclRefExpr" and l["referencedDecl"]["name"] in self.alias_locals:
                     if not self.is_null(n["inner"][1]):
                         alias_assigns.append((l["referencedDecl"]["name"], n["inner"][1]))
+                        null_only.discard(l["referencedDecl"]["name"])
                 elif l.get("kind") == "DeclRefExpr" and not self.is_null(n["inner"][1]):
                     assigns.append((l["referencedDecl"]["name"], n["inner"][1]))
                     if self.chain_null(n["inner"][1]):
@@ -1613,8 +1774,52 @@ class Fn:
             for c in n.get("inner", []):
                 walk(c)
         walk(body)
+        moved = set()      # struct pointers with pointer arithmetic on them
+
+        def walk2(n):
+            k = n.get("kind")
+            if (k == "UnaryOperator" and n.get("opcode") in ("++", "--")) or (k == "CompoundAssignOperator" and n.get("opcode") in ("+=", "-=")):
+                l = self.skip(n["inner"][0])
+                if l.get("kind") == "DeclRefExpr" and l["referencedDecl"]["name"] in self.alias_locals:
+                    moved.add(l["referencedDecl"]["name"])
+            for c in n.get("inner", []):
+                walk2(c)
+        walk2(body)
+        for nm in moved:
+            if not any(a == nm for a, _ in alias_assigns):
+                fail("%s: struct pointer %s is moved but never bound to an array of structs" % (self.name, nm))
         for nm, rhs in alias_assigns:
             r = self.skip(rhs)
+            cb = self.cursor_base(r)
+            if cb is not None and (nm in moved or cb[2] is not None):
+                # a CURSOR over the array of structs p->arr: an index field; q->fld is the cell q of the region p_arr_fld
+                if nm in self.aliases or nm in self.objects or (nm in self.cursors and self.cursors[nm] != (cb[0], cb[1])):
+                    fail("%s: struct pointer %s is bound to two different objects" % (self.name, nm))
+                self.cursors[nm] = (cb[0], cb[1])
+                self.scalar(nm)
+                continue
+            if nm in moved:
+                fail("%s: struct pointer %s is moved but bound to something that is not an array of structs" % (self.name, nm))
+            if self.opts.get("object_calls"):
+                calls = self.object_expr(r)
+                if calls is not None:
+                    # the result of calls that are outside the modelled state: the local IS that object (like a struct parameter)
+                    if nm in self.aliases or (nm in self.objects and self.objects[nm] != calls):
+                        fail("%s: struct pointer %s is bound to two different objects" % (self.name, nm))
+                    self.objects[nm] = calls
+                    self.structs.add(nm)
+                    note = "struct pointer `%s` is the object returned by %s (entry fields `%s_*`; `%s_null` = the result is NULL), the call(s) leave the modelled state unchanged" % (nm, ", ".join("`%s`" % c for c in calls), nm, nm)
+                    if note not in self.notes:
+                        self.notes.append(note)
+                    continue
+                if r.get("kind") == "UnaryOperator" and r.get("opcode") == "*":
+                    r2 = self.skip(r["inner"][0])
+                    if r2.get("kind") == "DeclRefExpr" and r2["referencedDecl"]["name"] in self.objects:
+                        # `q = *pp` where `pp` (pointer to pointer) is an object local: `q` names the same object
+                        if nm in self.aliases and self.aliases[nm] != (r2["referencedDecl"]["name"], []):
+                            fail("%s: struct pointer %s is bound to two different objects" % (self.name, nm))
+                        self.aliases[nm] = (r2["referencedDecl"]["name"], [])
+                        continue
             if r.get("kind") == "UnaryOperator" and r.get("opcode") == "&":
                 r = self.skip(r["inner"][0])
             p0, path0 = self.member_chain(r) if r.get("kind") == "MemberExpr" else ((r["referencedDecl"]["name"], []) if r.get("kind") == "DeclRefExpr" and r["referencedDecl"]["name"] in self.structs else (None, None))
@@ -1624,9 +1829,11 @@ class Fn:
                 fail("%s: struct pointer %s is bound to two different objects" % (self.name, nm))
             self.aliases[nm] = (p0, path0)
         for nm in sorted(self.alias_locals):
-            if nm not in self.aliases:
+            if nm not in self.aliases and nm not in self.objects and nm not in self.cursors:
                 if nm not in self.used_names:
                     continue      # declared but never used (its uses were in an unmodelled switch group)
+                if self.opts.get("object_calls") and nm in null_only:
+                    continue     # only ever NULL (its address is handed to an assumed call): any dereference fails in member_chain
                 fail("%s: struct pointer %s is never bound" % (self.name, nm))
         changed = True
         while changed:
@@ -1928,7 +2135,163 @@ def resolve_consts(repo, bdir, cfile, names, incs):
         return out
 
 
-def translate_unit(repo, bdir, unit, cfile, fns, opts=None):
+def fragment_ast(ast, name, spec, src):
+    """A FRAGMENT of a function as a function of its own: the consecutive statements of one block of `ast` that start with the statement
+    whose source text begins with spec['from'] and end with the first following sibling whose text begins with spec['to'] (or
+    spec['count'] statements).  Variables of the enclosing function that the fragment uses become
+      * parameters (entry fields) — integers whose incoming value may be read, arrays, pointers the fragment does not assign;
+      * locals — integers and pointers whose FIRST use is a plain assignment `x = e` (e without x) at the top level of the fragment
+        (or in the initialiser of a top-level `for`).  A pointer that is assigned anywhere else in the fragment is rejected.
+    `break` / `continue` that would leave the fragment are rejected; `goto` out of it leaves `gto = true` in the final state."""
+    body = [c for c in ast["inner"] if c.get("kind") == "CompoundStmt"][0]
+
+    def boff(n):
+        b = n.get("range", {}).get("begin", {})
+        b = b.get("expansionLoc", b)
+        return b.get("offset")
+
+    def starts(n, text):
+        o = boff(n)
+        return o is not None and src[o:o + len(text)] == text
+
+    hits = []
+
+    def find(n):
+        if n.get("kind") == "CompoundStmt":
+            ch = [c for c in n.get("inner", []) if c.get("kind")]
+            for i, c in enumerate(ch):
+                if starts(c, spec["from"]):
+                    hits.append((ch, i))
+                    return
+        for c in n.get("inner", []):
+            find(c)
+    find(body)
+    if len(hits) != 1:
+        fail("fragment %s: %d statements of %s start with %r" % (name, len(hits), ast["name"], spec["from"]))
+    ch, i = hits[0]
+    if "count" in spec:
+        j = i + int(spec["count"]) - 1
+    else:
+        js = [k for k in range(i, len(ch)) if starts(ch[k], spec["to"])]
+        if not js:
+            fail("fragment %s: no statement after %r starts with %r" % (name, spec["from"], spec["to"]))
+        j = js[0]
+    if j >= len(ch):
+        fail("fragment %s: the block is shorter than the fragment" % name)
+    stmts = ch[i:j + 1]
+    decls = {}
+
+    def coll(n):
+        if n.get("kind") in ("VarDecl", "ParmVarDecl"):
+            if n["name"] in decls:
+                fail("fragment %s: %s is declared twice in %s" % (name, n["name"], ast["name"]))
+            decls[n["name"]] = n
+        for c in n.get("inner", []):
+            coll(c)
+    coll(ast)
+    inside = set()
+
+    def coll_in(n):
+        if n.get("kind") == "VarDecl":
+            inside.add(n["name"])
+        for c in n.get("inner", []):
+            coll_in(c)
+    for st_ in stmts:
+        coll_in(st_)
+
+    def refs(n, acc):
+        if n.get("kind") == "DeclRefExpr" and n.get("referencedDecl", {}).get("kind") in ("VarDecl", "ParmVarDecl"):
+            nm = n["referencedDecl"]["name"]
+            if nm not in inside and nm not in acc:
+                acc.append(nm)
+        for c in n.get("inner", []):
+            refs(c, acc)
+        return acc
+    order = []
+    for st_ in stmts:
+        refs(st_, order)
+    for nm in order:
+        if nm not in decls:
+            fail("fragment %s: %s is not a parameter or local of %s" % (name, nm, ast["name"]))
+
+    def strip(n):
+        while n.get("kind") in ("ParenExpr", "ImplicitCastExpr", "CStyleCastExpr"):
+            n = n["inner"][0]
+        return n
+    seen, first_assigned = set(), set()
+
+    def plain_assign(st_):
+        if st_.get("kind") == "BinaryOperator" and st_.get("opcode") == "=":
+            l = strip(st_["inner"][0])
+            if l.get("kind") == "DeclRefExpr" and l["referencedDecl"]["name"] in order:
+                nm = l["referencedDecl"]["name"]
+                if nm not in seen and nm not in refs(st_["inner"][1], []):
+                    first_assigned.add(nm)
+        for nm in refs(st_, []):
+            seen.add(nm)
+    for st_ in stmts:
+        if st_.get("kind") == "ForStmt" and st_["inner"][0].get("kind"):
+            ini = st_["inner"][0]
+            parts = [ini]
+            while parts and parts[0].get("kind") == "BinaryOperator" and parts[0].get("opcode") == ",":
+                parts = list(parts[0]["inner"]) + parts[1:]
+            for q in parts:
+                plain_assign(q)
+        plain_assign(st_)
+    assigned = set()
+
+    def asg(n):
+        if n.get("kind") == "BinaryOperator" and n.get("opcode") == "=":
+            l = strip(n["inner"][0])
+            if l.get("kind") == "DeclRefExpr":
+                assigned.add(l["referencedDecl"]["name"])
+        for c in n.get("inner", []):
+            asg(c)
+    for st_ in stmts:
+        asg(st_)
+
+    def leaves(n, in_loop, in_switch):
+        k = n.get("kind")
+        if k == "ContinueStmt" and not in_loop:
+            fail("fragment %s: `continue` leaves the fragment" % name)
+        if k == "BreakStmt" and not (in_loop or in_switch):
+            fail("fragment %s: `break` leaves the fragment" % name)
+        if k in ("ForStmt", "WhileStmt", "DoStmt"):
+            in_loop = True
+        if k == "SwitchStmt":
+            in_switch = True
+        for c in n.get("inner", []):
+            leaves(c, in_loop, in_switch)
+    for st_ in stmts:
+        leaves(st_, False, False)
+    params, local_decls = [], []
+    for nm in order:
+        d = decls[nm]
+        t = base_type(qt(d))
+        is_int = int_width(t) is not None
+        is_arr = re.match(r"^(.*)\[\d*\]$", t) is not None
+        if is_int:
+            tolocal = nm in first_assigned
+        elif is_arr:
+            tolocal = False
+        else:
+            tolocal = nm in assigned
+            if tolocal and nm not in first_assigned:
+                fail("fragment %s: pointer %s is assigned inside the fragment but may be used with its incoming value" % (name, nm))
+        clean = {k_: v_ for k_, v_ in d.items() if k_ not in ("inner", "init")}
+        if tolocal:
+            clean["kind"] = "VarDecl"
+            local_decls.append({"kind": "DeclStmt", "inner": [clean]})
+        else:
+            clean["kind"] = "ParmVarDecl"
+            clean.pop("storageClass", None)
+            params.append(clean)
+    note = "FRAGMENT of `%s`: the statements from `%s` %s; the variables of `%s` it reads are entry parameters" % (
+        ast["name"], spec["from"], ("to `%s`" % spec["to"]) if "to" in spec else ("(%s statements)" % spec["count"]), ast["name"])
+    return {"kind": "FunctionDecl", "name": name, "inner": params + [{"kind": "CompoundStmt", "inner": local_decls + stmts}]}, note
+
+
+def translate_unit(repo, bdir, unit, cfile, fns, opts=None, _want_fns=False):
     opts = dict(opts or {})
     opts["cfile"] = cfile
     EXTRA_INT_TYPES.clear()
@@ -1942,12 +2305,24 @@ def translate_unit(repo, bdir, unit, cfile, fns, opts=None):
     out = []
     for imp in opts.get("imports", []):
         out.append("import %s" % imp)
+    # functions of units translated elsewhere that this unit's functions call: {unit: [c file, [functions], opts]}.  They are translated again
+    # here only to learn their entry parameters / stored fields; the calls name the definitions of that unit (which this one imports)
+    used_fns = {}
+    for u_, (cf_, fns_, o_) in opts.get("use_units", {}).items():
+        out.append("import H4.Gen.Fn.%s" % u_)
+        _, _, dfs = translate_unit(repo, bdir, u_, cf_, fns_, o_, _want_fns=True)
+        for fn_, fobj in dfs.items():
+            fobj.qual = "H4.Gen.Fn.%s." % u_
+            used_fns[fn_] = fobj
+    EXTRA_INT_TYPES.clear()
+    for k_, v_ in opts.get("int_types", {}).items():
+        EXTRA_INT_TYPES[k_] = (bool(v_[0]), int(v_[1]))
     out.append("/- GENERATED by /verif/gen/c2lean.py from `%s` of /repo's current tree (Tie A, function level). Do not edit.\n"
                "   Each definition is the statement-by-statement translation of the C function of the same name\n"
                "   (see the header of gen/c2lean.py for the translation scheme and its assumptions). -/\n" % cfile)
     out.append("set_option linter.unusedVariables false\nnamespace H4.Gen.Fn.%s\n" % unit)
     sigs = {}
-    done_fns = {}
+    done_fns = dict(used_fns)
     for fn in fns:
         fo = dict(opts)
         fo.update(opts.get("per_fn", {}).get(fn, {}))
@@ -1956,9 +2331,16 @@ def translate_unit(repo, bdir, unit, cfile, fns, opts=None):
         if need:
             # the labels of the switch groups to leave out are needed before the first pass (the AST is pruned first)
             fo["consts"] = dict(fo.get("consts", {}), **resolve_consts(repo, bdir, cfile, set(need), incs))
-        # opts['c_names']: the symbol the preprocessor makes of the function's name (`#define NC_var_shape H4_NC_var_shape`)
-        ast = clang_ast(os.path.join(repo, cfile), fo.get("c_names", {}).get(fn, fn), incs)
-        ast["name"] = fn
+        frag = opts.get("fragments", {}).get(fn)
+        if frag:
+            # a FRAGMENT of the function frag['of'] as a function of its own (see fragment_ast)
+            ast, fnote = fragment_ast(clang_ast(os.path.join(repo, cfile), fo.get("c_names", {}).get(frag["of"], frag["of"]), incs), fn, frag,
+                                      open(os.path.join(repo, cfile), errors="replace").read())
+            fo["_frag_notes"] = [fnote]
+        else:
+            # opts['c_names']: the symbol the preprocessor makes of the function's name (`#define NC_var_shape H4_NC_var_shape`)
+            ast = clang_ast(os.path.join(repo, cfile), fo.get("c_names", {}).get(fn, fn), incs)
+            ast["name"] = fn
         f = Fn(ast, unit, fo)
         txt, params = f.translate()
         missing = fo.pop("_missing_consts", None)
@@ -1975,6 +2357,8 @@ def translate_unit(repo, bdir, unit, cfile, fns, opts=None):
         out.append(txt)
         sigs[fn] = params
     out.append("end H4.Gen.Fn.%s\n" % unit)
+    if _want_fns:
+        return "\n".join(out), sigs, {k_: v_ for k_, v_ in done_fns.items() if k_ not in used_fns}
     return "\n".join(out), sigs
 
 
